@@ -454,8 +454,9 @@ class Runner:
         self.pickled_now(S, est, d, snaps, "after the call sequence")
         # ---------------------------------------------------------------- thorough: every ordered pair on fresh fits
         if pairs and S.fresh_refs and k > 1:
-            for i in range(k):
-                for j in range(k):
+            some = sorted({(self.seed + len(S.name) + t) % k for t in range(4)})     # at most 4 of the calls
+            for i in some:
+                for j in some:
                     if i == j:
                         continue
                     e2, d2, s2 = self.fitted(S)
@@ -900,8 +901,8 @@ def series_transformer_subjects(tier, seed):
         lays += [(17, "datetime", 2), (12, "range", 0), (20, "int64", 11)]
 
     def pick(i, k=1):
-        if thorough:
-            return lays
+        """quick: k of the layouts, thorough: 3 * k of the six, rotating with the configuration and the seed"""
+        k = min(len(lays), 3 * k if thorough else k)
         return [lays[(i + seed + j) % len(lays)] for j in range(k)]
 
     # ---- HampelFilter: spikes (flagged), NaN, float / int, Series / DataFrame
@@ -1195,13 +1196,13 @@ def classifier_subjects(tier, seed):
     cnt = [0]
 
     def add(label, make, n_inst=10, n_cols=1, m=40, n_data=1, n_jobs=(), n_jobs_quick=None, rstates=None, **kw):
-        """thorough: both containers x n_data data seeds x 2 random states; quick: containers alternate over the data
-        seeds, one random state, a rotating part of the n_jobs values per data seed"""
+        """containers alternate over the data seeds; thorough: 2 * n_data data seeds x 2 random states x all n_jobs
+        values; quick: n_data data seeds, one random state, a rotating part of the n_jobs values per data seed"""
         cnt[0] += 1
         dseeds = range(seed, seed + (2 * n_data if thorough else n_data))
         for di, ds in enumerate(dseeds):
             for ci, container in enumerate(containers):
-                if not thorough and (ci + di + cnt[0] + seed) % 2:
+                if (ci + di + cnt[0] + seed) % 2:
                     continue
                 for rs in (rstates or ((0, 5) if thorough else (seed % 3,))):
                     nj = n_jobs
@@ -1291,9 +1292,9 @@ def _run_all(R, tier, seed, name_filter=None, limit=None, protocol_checks=True):
                 subs = subs[:limit]
             for idx, S in enumerate(subs):
                 try:
-                    # thorough: a rotating third of the configurations also gets every ordered pair of calls
-                    # (i, j, i) on its own freshly fitted estimator
-                    run.run(S, tier, pairs=(tier == "thorough" and (idx + seed) % 3 == 0))
+                    # thorough: a rotating quarter of the configurations also gets every ordered pair of (at most
+                    # four of the) calls as (i, j, i) on its own freshly fitted estimator
+                    run.run(S, tier, pairs=(tier == "thorough" and (idx + seed) % 4 == 0))
                 except Exception as e:        # the protocol itself must not stop the run
                     R.check(K_RAISE, False, f"{S.name}: protocol stopped by {_err(e)}")
         if protocol_checks:
